@@ -174,6 +174,29 @@ fn c20_subs() -> Vec<Box<dyn Sub>> {
     })]
 }
 
+/// C15 only: in about half of the programs, definitions with replace_segment rules get a further
+/// rule for a search key they already have (at the end or at the front). Which of two rules for
+/// one key applies is left open by the statements - C09 and C18 therefore never generate this -
+/// but whatever the answer is, it must be the same answer under every feature set.
+fn c15_duplicate_search_keys(p: &mut crate::ast::Program, dup: u8) {
+    if dup % 2 == 0 {
+        return;
+    }
+    for (k, d) in p.defs.iter_mut().enumerate() {
+        if d.attr.replace.is_empty() {
+            continue;
+        }
+        let pick = (dup as usize / 2 + k) % d.attr.replace.len();
+        let key = d.attr.replace[pick].0.clone();
+        let rule = (key, format!("second_{k}"));
+        if dup / 4 % 2 == 0 {
+            d.attr.replace.push(rule);
+        } else {
+            d.attr.replace.insert(0, rule);
+        }
+    }
+}
+
 fn c15_subs() -> Vec<Box<dyn Sub>> {
     let o = || DefOpts { encode: true, bitvec: false, rich_attrs: true, encoded_as: true };
     vec![
@@ -184,8 +207,9 @@ fn c15_subs() -> Vec<Box<dyn Sub>> {
             strat: Box::new(move || {
                 use proptest::prelude::*;
                 // definitions plus built-in expressions in one corpus program
-                (crate::gen::program(2..6, o()), crate::gen::builtin_program(false)).prop_map(|(mut p, b)| {
+                (crate::gen::program(2..6, o()), crate::gen::builtin_program(false), any::<u8>()).prop_map(|(mut p, b, dup)| {
                     p.roots.extend(b.roots.into_iter().filter(|r| !r.uses_bitvec()));
+                    c15_duplicate_search_keys(&mut p, dup);
                     ProgCase { prog: p, entropies: vec![] }
                 }).boxed()
             }),
@@ -234,8 +258,9 @@ fn c15_subs() -> Vec<Box<dyn Sub>> {
             thorough: 160,
             strat: Box::new(move || {
                 use proptest::prelude::*;
-                (crate::gen::program(2..6, DefOpts { encode: true, bitvec: false, rich_attrs: true, encoded_as: true }), crate::gen::builtin_program(false)).prop_map(|(mut p, b)| {
+                (crate::gen::program(2..6, DefOpts { encode: true, bitvec: false, rich_attrs: true, encoded_as: true }), crate::gen::builtin_program(false), any::<u8>()).prop_map(|(mut p, b, dup)| {
                     p.roots.extend(b.roots.into_iter().filter(|r| !r.uses_bitvec()));
+                    c15_duplicate_search_keys(&mut p, dup);
                     ProgCase { prog: p, entropies: vec![] }
                 }).boxed()
             }),
